@@ -316,6 +316,26 @@ func runSysPlug(x *X) {
 				}
 			}
 		}
+		// streams and trailers pass through the plugins' writers like everything else (not through
+		// gzip, which buffers by design): a response head flushed on its own, trailers after a body
+		// or after none at all
+		if !wantGzip && rs.framing == "chunked" && ex.method != "HEAD" && rs.status != 204 && rs.status != 304 {
+			if len(rs.body) > 0 && c.Intn(6, "idle-first") == 0 {
+				rs.steps = append([]respStep{{kind: "sleep", d: time.Duration(2+c.Intn(3, "idle-s")) * time.Second}}, rs.steps...)
+				x.Probe("idle-first-stream-through-plugins")
+			}
+			if c.Intn(5, "trailer") == 0 {
+				rs.trailer = []hdrKV{{"X-Checksum", "crc32=1c291ca3"}}
+				if c.Intn(2, "trailer2") == 1 {
+					rs.trailer = append(rs.trailer, hdrKV{"Server-Timing", "db;dur=53"})
+				}
+				x.Probe("trailer-through-plugins")
+			}
+		}
+		// the TE request header (hop-by-hop, about transfer codings) is not Accept-Encoding
+		if c.Intn(8, "te-header") == 0 {
+			ex.hdr = append(ex.hdr, hdrKV{"TE", []string{"gzip", "trailers, gzip", "trailers"}[c.Intn(3, "te-value")]})
+		}
 		all = append(all, ex)
 		// fault: a client that goes away before the response. Its own exchange has no oracle;
 		// what it must not do is damage the exchanges after it (buffers, pooled writers, limits).
